@@ -220,5 +220,8 @@ int main(int argc, char **argv) {
         fflush(stdout);   /* a crash in the next call must not lose the lines already produced */
     }
     fflush(stdout);
+    /* release the harness' own memory so that LeakSanitizer (asan variant) reports only leaks of the library */
+    free(line); free(out.b); free(jv_arena); jv_arena = NULL;
+    secp256k1_context_destroy(CTX);
     return 0;
 }
